@@ -56,11 +56,11 @@ pub fn plan(prop: &str, tier: &str, ctx: &Ctx) -> (u64, u64, String) {
         "C01" => {
             let l = if thorough { 5 } else { 4 };
             let tl = if thorough { 4 } else { 3 };
-            let ex = (crate::gen::w5_count(l) + crate::gen::count_token_strings(tl)) * c01::W5_ENVS.len() as u64;
+            let ex = (crate::gen::w5_count(l) + crate::gen::count_token_strings(tl)) * c01::W5_ENVS.len() as u64 + crate::gen::slide_count() * 5;
             (
                 ex + if thorough { 150_000_000 } else { 4_000_000 },
                 ex,
-                format!("every string of length <= {l} over the 14-symbol alphabet {:?} and every sequence of 1..{tl} tokens over the 36-token YAML alphabet {:?}, each x {} environments", crate::gen::W5_ALPHABET, crate::gen::TOKENS, c01::W5_ENVS.len()),
+                format!("every string of length <= {l} over the 14-symbol alphabet {:?} and every sequence of 1..{tl} tokens over the 36-token YAML alphabet {:?}, each x {} environments; plus {} sliding cases (a 2/3/4-byte character, literal or %-escaped, behind 0..40 ASCII characters in 14 constructs) x iterate and the four loaders", crate::gen::W5_ALPHABET, crate::gen::TOKENS, c01::W5_ENVS.len(), crate::gen::slide_count()),
             )
         }
         "C17" => {
@@ -68,6 +68,7 @@ pub fn plan(prop: &str, tier: &str, ctx: &Ctx) -> (u64, u64, String) {
             (ex + if thorough { 60_000_000 } else { 2_500_000 }, ex, desc)
         }
         "C18" => {
+            c18::HUGE_ON.store(thorough, Ordering::Relaxed);
             let l = if thorough { 6 } else { 4 };
             let ex = c18::exhaustive_count(l);
             (
@@ -438,7 +439,12 @@ pub fn run_batch(cfg: Config) -> i32 {
         let (min_case, min_detail, steps) = if class == "HANG(watchdog)" {
             (case.clone(), detail.clone(), 0)
         } else {
-            minimise::minimise(&case, &class)
+            // minimisation re-executes cases: it needs the same 256 MiB stack as the workers
+            let (c2, cl2) = (case.clone(), class.clone());
+            match std::thread::Builder::new().stack_size(256 << 20).spawn(move || minimise::minimise(&c2, &cl2)).map(std::thread::JoinHandle::join) {
+                Ok(Ok(r)) => r,
+                _ => (case.clone(), detail.clone(), 0),
+            }
         };
         let path = format!("{}/replays/{}-{}-{}.json", cfg.verif_dir, cfg.prop, cfg.seed, i);
         let rj = replay_json(&cfg, i, &min_case, &class, &min_detail, Some((&case, &detail)), steps);
